@@ -586,6 +586,13 @@ theorem length_ext_ge : ∀ (xs : List Nat) (s : G16), s.length ≤ (s.ext xs).l
     intro s
     exact Nat.le_trans (length_ins_ge s x) (ih (s.ins x))
 
+theorem mem_ext_of_mem : ∀ (xs : List Nat) (s : G16) {y : Nat}, y ∈ s → y ∈ s.ext xs := by
+  intro xs
+  unfold G16.ext
+  induction xs with
+  | nil => intro s y h; exact h
+  | cons x rest ih => intro s y h; exact ih (s.ins x) (mem_ins_of_mem h)
+
 theorem inc16_ofList (xs : List Nat) : Inc16 (G16.ofList xs) := inc16_nil.ext xs
 
 /-- adding glyphs of which one is new makes the set strictly larger -/
@@ -636,22 +643,23 @@ def Good (c : Cx) : Prop := Inc16 c.glyphs ∧ ∀ t ∈ c.todos, TodoOk t
 structure Eff (c c' : Cx) (k : Nat) : Prop where
   inc : Inc16 c'.glyphs
   mono : c.glyphs.length ≤ c'.glyphs.length
+  sub : ∀ g ∈ c.glyphs, g ∈ c'.glyphs
   fin : c'.finished = c.finished
   cur : c'.cur = c.cur
   tlen : c'.todos.length ≤ c.todos.length + k
   tok : ∀ t ∈ c'.todos, TodoOk t
 
 theorem Eff.refl {c : Cx} (h : Good c) : Eff c c 0 :=
-  ⟨h.1, Nat.le_refl _, rfl, rfl, by omega, h.2⟩
+  ⟨h.1, Nat.le_refl _, fun g hg => hg, rfl, rfl, by omega, h.2⟩
 
 theorem Eff.good {c c' : Cx} {k : Nat} (h : Eff c c' k) : Good c' := ⟨h.inc, h.tok⟩
 
 theorem Eff.trans {c c1 c2 : Cx} {k1 k2 : Nat} (h1 : Eff c c1 k1) (h2 : Eff c1 c2 k2) : Eff c c2 (k1 + k2) :=
-  ⟨h2.inc, Nat.le_trans h1.mono h2.mono, by rw [h2.fin, h1.fin], by rw [h2.cur, h1.cur],
+  ⟨h2.inc, Nat.le_trans h1.mono h2.mono, fun g hg => h2.sub g (h1.sub g hg), by rw [h2.fin, h1.fin], by rw [h2.cur, h1.cur],
    by have := h1.tlen; have := h2.tlen; omega, h2.tok⟩
 
 theorem Eff.weaken {c c' : Cx} {k k' : Nat} (h : Eff c c' k) (hk : k ≤ k') : Eff c c' k' :=
-  ⟨h.inc, h.mono, h.fin, h.cur, by have := h.tlen; omega, h.tok⟩
+  ⟨h.inc, h.mono, h.sub, h.fin, h.cur, by have := h.tlen; omega, h.tok⟩
 
 /-- a step's result: `Ok` with a bounded effect, or an error — never a panic -/
 def Safe (r : CR Cx) (c : Cx) (k : Nat) : Prop :=
@@ -682,14 +690,14 @@ theorem Safe.bind {c : Cx} {k1 k2 : Nat} {r : CR Cx} {f : Cx → CR Cx} (h1 : Sa
   | trap => exact h1
 
 theorem eff_addGlyph {c : Cx} (h : Good c) (g : Nat) : Eff c (c.addGlyph g) 0 :=
-  ⟨h.1.ins g, length_ins_ge _ _, rfl, rfl, by simp [Cx.addGlyph], h.2⟩
+  ⟨h.1.ins g, length_ins_ge _ _, fun y hy => mem_ins_of_mem hy, rfl, rfl, by simp [Cx.addGlyph], h.2⟩
 
 theorem eff_extend {c : Cx} (h : Good c) (gs : List Nat) : Eff c (c.extendGlyphs gs) 0 :=
-  ⟨h.1.ext gs, length_ext_ge _ _, rfl, rfl, by simp [Cx.extendGlyphs], h.2⟩
+  ⟨h.1.ext gs, length_ext_ge _ _, fun y hy => mem_ext_of_mem gs _ hy, rfl, rfl, by simp [Cx.extendGlyphs], h.2⟩
 
 theorem eff_addTodo {c : Cx} (h : Good c) (id : Nat) (a : Option G16) (ha : ∀ s, a = some s → Inc16 s) :
     Eff c (c.addTodo id a) 1 := by
-  refine ⟨h.1, Nat.le_refl _, rfl, rfl, by simp [Cx.addTodo], ?_⟩
+  refine ⟨h.1, Nat.le_refl _, fun g hg => hg, rfl, rfl, by simp [Cx.addTodo], ?_⟩
   intro t ht
   simp only [Cx.addTodo, List.mem_cons] at ht
   rcases ht with rfl | ht
@@ -806,12 +814,6 @@ theorem ruleTodos1_safe (covGlyphs : List Nat) (i : Nat) (input : List Nat) (hi 
           simp only []
           exact Safe.weaken (ih c _ h) (by omega)
 
-/-- total number of lookup records of a rule list -/
-def rulesCost : List (PR Rule) → Nat
-  | [] => 0
-  | .error _ :: rest => rulesCost rest
-  | .ok r :: rest => r.recs.length + rulesCost rest
-
 theorem rulesLoop1_safe (covGlyphs : List Nat) (i : Nat) (hi : i < covGlyphs.length) :
     ∀ (rules : List (PR Rule)) (c : Cx), Good c → Safe (rulesLoop1 covGlyphs i c rules) c (rulesCost rules) := by
   intro rules
@@ -826,14 +828,6 @@ theorem rulesLoop1_safe (covGlyphs : List Nat) (i : Nat) (hi : i < covGlyphs.len
       split
       · exact Safe.bind (ruleTodos1_safe covGlyphs i rule.input hi rule.recs c [] h) (fun c1 h1 => ih c1 h1.good)
       · exact Safe.weaken (ih c h) (by omega)
-
-def setCost : Option (PR (List (PR Rule))) → Nat
-  | some (.ok rules) => rulesCost rules
-  | _ => 0
-
-def setsCost1 : List (Nat × Option (PR (List (PR Rule)))) → Nat
-  | [] => 0
-  | (_, s) :: rest => setCost s + setsCost1 rest
 
 theorem setsLoop1_safe (covGlyphs : List Nat) (cur : G16) :
     ∀ (sets : List (Nat × Option (PR (List (PR Rule))))) (c : Cx) (i : Nat), Good c →
@@ -946,10 +940,6 @@ theorem rulesLoop2_safe (cd : ClassDef) (cur : G16) (hcur : Inc16 cur) (ours : L
       · exact Safe.bind (ruleTodos2_safe cd cur hcur classI rule.input rule.recs c [] h) (fun c1 h1 => ih c1 h1.good)
       · exact Safe.weaken (ih c h) (by omega)
 
-def setsCost2 : List (Option (PR (List (PR Rule)))) → Nat
-  | [] => 0
-  | s :: rest => setCost s + setsCost2 rest
-
 theorem setsLoop2_safe (cd : ClassDef) (cur : G16) (hcur : Inc16 cur) (ours : List Nat) :
     ∀ (sets : List (Option (PR (List (PR Rule))))) (c : Cx) (i : Nat), Good c →
       Safe (setsLoop2 cd cur ours c i sets) c (setsCost2 sets) := by
@@ -999,15 +989,6 @@ theorem intersectCoverage_inc {cov : Coverage} {glyphs cur : G16} (h : intersect
   split at h
   · cases h
   · injection h with h; rw [← h]; exact inc16_ofList _
-
-/-- the number of todos one subtable can push: its lookup records -/
-def subCost : Sub → Nat
-  | .ctx1 cov sets => (match cov with
-      | .ok cv => setsCost1 ((covIter cv).zip sets)
-      | .error _ => 0)
-  | .ctx2 _ _ sets => setsCost2 sets
-  | .ctx3 _ _ recs => recs.length
-  | _ => 0
 
 /-- **every subtable's `add_reachable_glyphs` is safe**: no panic, glyphs only grow, bounded todos -/
 theorem subAdd_safe (s : Sub) (c : Cx) (h : Good c) : Safe (subAdd c s) c (subCost s) := by
@@ -1078,11 +1059,6 @@ theorem subAdd_safe (s : Sub) (c : Cx) (h : Good c) : Safe (subAdd c s) c (subCo
         · exact ctx3Todos_safe covs cur (intersectCoverage_inc hi) recs c h
         · exact Safe.weaken (Eff.refl h : Safe (.ok c) c 0) (by omega)
 
-def subsCost : List (PR Sub) → Nat
-  | [] => 0
-  | .error _ :: rest => subsCost rest
-  | .ok s :: rest => subCost s + subsCost rest
-
 theorem subsLoop_safe : ∀ (subs : List (PR Sub)) (c : Cx), Good c → Safe (subsLoop c subs) c (subsCost subs) := by
   intro subs
   induction subs with
@@ -1094,6 +1070,568 @@ theorem subsLoop_safe : ∀ (subs : List (PR Sub)) (c : Cx), Good c → Safe (su
     | ok s =>
       simp only [subsLoop, subsCost]
       exact Safe.bind (subAdd_safe s c h) (fun c1 h1 => ih c1 h1.good)
+
+
+/-! ## `finished_lookups` and the termination measure of the todo loop -/
+
+theorem find?_filter_ne (m : List (Nat × Nat × Option G16)) (id id' : Nat) (h : id' ≠ id) :
+    (m.filter (fun e => e.1 != id)).find? (fun e => e.1 == id') = m.find? (fun e => e.1 == id') := by
+  induction m with
+  | nil => rfl
+  | cons e rest ih =>
+    by_cases he : e.1 = id
+    · have h1 : (e.1 != id) = false := by simp [he]
+      have h2 : (e.1 == id') = false := by
+        simp only [beq_eq_false_iff_ne, ne_eq, he]; exact fun e => h e.symm
+      simp only [List.filter_cons, h1, Bool.false_eq_true, if_false, List.find?_cons, h2, ih]
+    · have h1 : (e.1 != id) = true := by simp [he]
+      simp only [List.filter_cons, h1, if_true, List.find?_cons, ih]
+
+theorem finishedGet_set (m : List (Nat × Nat × Option G16)) (id id' : Nat) (v : Nat × Option G16) :
+    finishedGet (finishedSet m id v) id' = if id' = id then some v else finishedGet m id' := by
+  unfold finishedGet finishedSet
+  by_cases h : id' = id
+  · subst h; simp
+  · have h2 : (id == id') = false := by
+      simp only [beq_eq_false_iff_ne, ne_eq]; exact fun e => h e.symm
+    simp only [h, if_false, List.find?_cons, h2, find?_filter_ne m id id' h]
+
+/-- all `covered` sets are glyph sets -/
+def FinOk (c : Cx) : Prop := ∀ e ∈ c.finished, ∀ cov, e.2.2 = some cov → Inc16 cov
+
+/-- what is left of a lookup's budget in the current epoch (`g` = number of closure glyphs): it was
+(re)run for this glyph count and has covered `cov` → `65536 − |cov|`; otherwise a fresh epoch -/
+def remOf (v : Option (Nat × Option G16)) (g : Nat) : Nat :=
+  match v with
+  | some (cnt, some cov) => if cnt = g then 65536 - cov.length else 65537
+  | _ => 65537
+
+def rem (c : Cx) (id : Nat) : Nat := remOf (finishedGet c.finished id) c.glyphs.length
+
+theorem remOf_le (v : Option (Nat × Option G16)) (g : Nat) : remOf v g ≤ 65537 := by
+  unfold remOf
+  split
+  · split <;> omega
+  · omega
+
+theorem remOf_getD (o : Option (Nat × Option G16)) (g : Nat) : remOf (some (o.getD (0, none))) g = remOf o g := by
+  cases o with
+  | none => simp [remOf]
+  | some v => simp
+
+def remSum (c : Cx) (L : Nat) : Nat := ((List.range L).map (rem c)).sum
+
+theorem sum_map_le (f : Nat → Nat) (B : Nat) (hf : ∀ i, f i ≤ B) : ∀ xs : List Nat, (xs.map f).sum ≤ xs.length * B := by
+  intro xs
+  induction xs with
+  | nil => simp
+  | cons x rest ih =>
+    simp only [List.map_cons, List.sum_cons, List.length_cons, Nat.succ_mul]
+    have := hf x
+    omega
+
+theorem remSum_le (c : Cx) (L : Nat) : remSum c L ≤ L * 65537 := by
+  have := sum_map_le (rem c) 65537 (fun i => remOf_le _ _) (List.range L)
+  simpa [remSum] using this
+
+/-- pointwise `≤` with a drop of `δ` at one index of the range -/
+theorem sum_range_dec (f f' : Nat → Nat) (id δ : Nat) (hne : ∀ i, i ≠ id → f' i = f i) (hid : f' id + δ ≤ f id) :
+    ∀ L, id < L → ((List.range L).map f').sum + δ ≤ ((List.range L).map f).sum := by
+  intro L
+  induction L with
+  | zero => intro h; omega
+  | succ L ih =>
+    intro h
+    simp only [List.range_succ, List.map_append, List.sum_append, List.map_cons, List.map_nil, List.sum_cons,
+      List.sum_nil, Nat.add_zero]
+    by_cases hL : id = L
+    · subst hL
+      have : ((List.range id).map f').sum = ((List.range id).map f).sum := by
+        congr 1
+        apply List.map_congr_left
+        intro i hi
+        simp only [List.mem_range] at hi
+        exact hne i (by omega)
+      omega
+    · have h1 := ih (by omega)
+      have h2 := hne L (fun e => hL e.symm)
+      omega
+
+theorem sum_range_congr (f f' : Nat → Nat) (h : ∀ i, f' i = f i) (L : Nat) :
+    ((List.range L).map f').sum = ((List.range L).map f).sum := by
+  congr 1
+  apply List.map_congr_left
+  intro i _
+  exact h i
+
+/-- the lexicographic measure "(glyphs still to be found, Σ budgets left in this epoch)" as one number -/
+def work (c : Cx) (L : Nat) : Nat := (65536 - c.glyphs.length) * (L * 65537 + 1) + remSum c L
+
+theorem work_dec_arith (N g g' W S S' : Nat) (h1 : g + 1 ≤ g') (h2 : g' ≤ N) (h3 : S' + 1 ≤ W) :
+    (N - g') * W + S' + 1 ≤ (N - g) * W + S := by
+  have : (N - g' + 1) * W ≤ (N - g) * W := Nat.mul_le_mul_right W (by omega)
+  rw [Nat.add_mul, Nat.one_mul] at this
+  omega
+
+theorem phi_dec_arith (A A' K t t' : Nat) (hA : A' + 1 ≤ A) (ht : t' ≤ t + K) :
+    A' * (K + 1) + t' < A * (K + 1) + t + 1 := by
+  have : (A' + 1) * (K + 1) ≤ A * (K + 1) := Nat.mul_le_mul_right _ hA
+  rw [Nat.add_mul, Nat.one_mul] at this
+  omega
+
+/-! ## `needs_to_do_lookup` -/
+
+structure NeedsSpec (c : Cx) (id : Nat) (b : Bool) (c1 : Cx) : Prop where
+  glyphs : c1.glyphs = c.glyphs
+  todos : c1.todos = c.todos
+  cur : c1.cur = c.cur
+  finOk : FinOk c1
+  other : ∀ i, i ≠ id → rem c1 i = rem c i
+  skip : b = false → rem c1 id ≤ rem c id
+  exec : b = true → rem c1 id + 1 ≤ rem c id
+
+theorem all_false_witness (cur : List Nat) (p : Nat → Bool) (h : ¬ cur.all p = true) : ∃ g ∈ cur, p g = false := by
+  induction cur with
+  | nil => simp at h
+  | cons x rest ih =>
+    simp only [List.all_cons, Bool.and_eq_true, not_and] at h
+    by_cases hx : p x = true
+    · obtain ⟨g, hg, hp⟩ := ih (h hx)
+      exact ⟨g, by simp [hg], hp⟩
+    · exact ⟨x, by simp, by simpa using hx⟩
+
+theorem finOk_set {c : Cx} (h : FinOk c) (id : Nat) (v : Nat × Option G16) (hv : ∀ cov, v.2 = some cov → Inc16 cov) :
+    FinOk { c with finished := finishedSet c.finished id v } := by
+  intro e he cov hc
+  simp only [finishedSet, List.mem_cons, List.mem_filter] at he
+  rcases he with rfl | he
+  · exact hv cov hc
+  · exact h e he.1 cov hc
+
+theorem rem_set_self (c : Cx) (id : Nat) (v : Nat × Option G16) :
+    rem { c with finished := finishedSet c.finished id v } id = remOf (some v) c.glyphs.length := by
+  simp [rem, finishedGet_set]
+
+theorem rem_set_other (c : Cx) (id i : Nat) (v : Nat × Option G16) (hi : i ≠ id) :
+    rem { c with finished := finishedSet c.finished id v } i = rem c i := by
+  simp [rem, finishedGet_set, hi]
+
+theorem needsToDo_eq (c : Cx) (id : Nat) (current : Option G16) :
+    needsToDo c id current =
+      (let e0 := (finishedGet c.finished id).getD (0, none)
+       let e1 : Nat × Option G16 := if e0.1 ≠ c.glyphs.length then (c.glyphs.length, some []) else e0
+       let cur := current.getD c.glyphs
+       if cur.all (coveredHas e1.2) = true then
+         (false, { c with finished := finishedSet c.finished id e1 })
+       else (true, { c with finished := finishedSet c.finished id (e1.1, some ((e1.2.getD []).ext cur)) })) := rfl
+
+theorem needsToDo_spec (c : Cx) (id : Nat) (current : Option G16) (hg : Inc16 c.glyphs) (hf : FinOk c)
+    (hcur : ∀ s, current = some s → Inc16 s) :
+    NeedsSpec c id (needsToDo c id current).1 (needsToDo c id current).2 := by
+  have hcurLt : ∀ g ∈ current.getD c.glyphs, g < 65536 := by
+    intro g hgm
+    cases current with
+    | none => exact hg.2 g hgm
+    | some s => exact (hcur s rfl).2 g hgm
+  -- the entry read and its invariant
+  have he0 : ∀ cov, ((finishedGet c.finished id).getD (0, none)).2 = some cov → Inc16 cov := by
+    intro cov hc
+    cases hfg : finishedGet c.finished id with
+    | none => simp [hfg] at hc
+    | some v =>
+      simp only [hfg, Option.getD_some] at hc
+      unfold finishedGet at hfg
+      cases hfi : c.finished.find? (fun e => e.1 == id) with
+      | none => simp [hfi] at hfg
+      | some e =>
+        simp only [hfi, Option.map_some, Option.some.injEq] at hfg
+        have hm := List.mem_of_find?_eq_some hfi
+        exact hf e hm cov (by rw [hfg]; exact hc)
+  have hrem0 : rem c id = remOf (some ((finishedGet c.finished id).getD (0, none))) c.glyphs.length := by
+    rw [remOf_getD]; rfl
+  rw [needsToDo_eq]
+  simp only []
+  generalize (finishedGet c.finished id).getD (0, none) = e0 at he0 hrem0
+  -- facts about e1
+  have hE1 : ∀ e1 : Nat × Option G16, e1 = (if e0.1 ≠ c.glyphs.length then (c.glyphs.length, some []) else e0) →
+      e1.1 = c.glyphs.length ∧ (∀ cov, e1.2 = some cov → Inc16 cov) ∧ remOf (some e1) c.glyphs.length ≤ rem c id := by
+    intro e1 he1
+    obtain ⟨cnt0, cov0⟩ := e0
+    by_cases hcnt : cnt0 ≠ c.glyphs.length
+    · simp only [hcnt, if_true, ne_eq, not_false_eq_true] at he1
+      subst he1
+      refine ⟨rfl, by intro cov hc; injection hc with hc; rw [← hc]; exact inc16_nil, ?_⟩
+      rw [hrem0]
+      cases cov0 with
+      | none => simp [remOf]
+      | some cv => simp [remOf, hcnt]
+    · have hcnt' : cnt0 = c.glyphs.length := by omega
+      simp only [hcnt', ne_eq, not_true_eq_false, if_false] at he1
+      subst he1
+      exact ⟨rfl, he0, by rw [hrem0, hcnt']; exact Nat.le_refl _⟩
+  generalize he1 : (if e0.1 ≠ c.glyphs.length then (c.glyphs.length, some []) else e0) = e1
+  obtain ⟨h1a, h1b, h1c⟩ := hE1 e1 he1.symm
+  by_cases hall : (current.getD c.glyphs).all (coveredHas e1.2) = true
+  · rw [if_pos hall]
+    refine ⟨rfl, rfl, rfl, finOk_set hf id e1 h1b, fun i hi => rem_set_other c id i e1 hi, ?_, ?_⟩
+    · intro _; rw [rem_set_self]; exact h1c
+    · intro hb; cases hb
+  · rw [if_neg hall]
+    have hinc : Inc16 (G16.ext (e1.2.getD []) (current.getD c.glyphs)) := by
+      cases he : e1.2 with
+      | none => exact inc16_nil.ext _
+      | some cv => exact (h1b cv he).ext _
+    refine ⟨rfl, rfl, rfl, finOk_set hf id _ (by intro cov hc; injection hc with hc; rw [← hc]; exact hinc),
+      fun i hi => rem_set_other c id i _ hi, ?_, ?_⟩
+    · intro hb; cases hb
+    · intro _
+      rw [rem_set_self]
+      refine Nat.le_trans ?_ h1c
+      obtain ⟨cnt1, cov1⟩ := e1
+      simp only [] at h1a
+      subst h1a
+      cases cov1 with
+      | none => simp [remOf]
+      | some cv =>
+        simp only [remOf, Option.getD_some, if_true, ite_true]
+        obtain ⟨g, hgm, hgp⟩ := all_false_witness _ _ hall
+        have hgn : g ∉ cv := by
+          simp only [coveredHas] at hgp
+          intro hm
+          have : cv.contains g = true := by simpa using hm
+          rw [this] at hgp; cases hgp
+        have h1 := length_ext_gt (current.getD c.glyphs) cv ⟨g, hgm, hgn, hcurLt g hgm⟩
+        have h2 := hinc.length_le
+        simp only [Option.getD_some] at h2
+        omega
+
+
+/-! ## one lookup, the todo loop, one pass, the fixpoint loop -/
+
+theorem arrGet_ok {α : Type} {xs : List (PR α)} {i : Nat} {a : α} (h : arrGet xs i = .ok a) :
+    i < xs.length ∧ xs[i]? = some (.ok a) := by
+  unfold arrGet at h
+  cases hx : xs[i]? with
+  | none => simp [hx] at h
+  | some r =>
+    simp only [hx] at h
+    subst h
+    have := List.getElem?_eq_some_iff.mp hx
+    exact ⟨this.1, rfl⟩
+
+theorem cost_le_max : ∀ (lookups : List (PR Lookup)) (lk : Lookup), (.ok lk : PR Lookup) ∈ lookups →
+    lookupCost lk ≤ maxCost lookups := by
+  intro lookups
+  induction lookups with
+  | nil => intro lk h; simp at h
+  | cons x rest ih =>
+    intro lk h
+    simp only [List.mem_cons] at h
+    cases x with
+    | error e =>
+      simp only [maxCost]
+      rcases h with h | h
+      · cases h
+      · exact ih lk h
+    | ok l =>
+      simp only [maxCost]
+      rcases h with h | h
+      · injection h with h; subst h; exact Nat.le_max_left _ _
+      · exact Nat.le_trans (ih lk h) (Nat.le_max_right _ _)
+
+theorem sum_range_le (f f' : Nat → Nat) (h : ∀ i, f' i ≤ f i) (L : Nat) :
+    ((List.range L).map f').sum ≤ ((List.range L).map f).sum := by
+  induction L with
+  | zero => simp
+  | succ L ih =>
+    simp only [List.range_succ, List.map_append, List.sum_append, List.map_cons, List.map_nil, List.sum_cons,
+      List.sum_nil, Nat.add_zero]
+    have := h L
+    omega
+
+/-- result of `ClosureCtx::closure_glyphs` for one lookup: either skipped (nothing pushed, the measure
+does not grow) or executed (at most `K` todos pushed, the measure drops) -/
+def LookupPost (L K : Nat) (c : Cx) : CR Cx → Prop
+  | .trap => False
+  | .err _ => True
+  | .ok c' => Good c' ∧ FinOk c' ∧ (∀ g ∈ c.glyphs, g ∈ c'.glyphs) ∧ c.glyphs.length ≤ c'.glyphs.length ∧
+      ((c'.todos.length ≤ c.todos.length ∧ work c' L ≤ work c L) ∨
+       (c'.todos.length ≤ c.todos.length + K ∧ work c' L + 1 ≤ work c L))
+
+theorem closureLookup_step (L K : Nat) (c : Cx) (lk : Lookup) (id : Nat) (current : Option G16)
+    (hG : Good c) (hF : FinOk c) (hcur : ∀ s, current = some s → Inc16 s) (hid : id < L)
+    (hK : lookupCost lk ≤ K) : LookupPost L K c (closureLookup c lk id current) := by
+  have sp := needsToDo_spec c id current hG.1 hF hcur
+  unfold closureLookup
+  generalize needsToDo c id current = r at sp
+  obtain ⟨b, c1⟩ := r
+  simp only [] at sp ⊢
+  have hG1 : Good c1 := ⟨by rw [sp.glyphs]; exact hG.1, by rw [sp.todos]; exact hG.2⟩
+  cases b with
+  | false =>
+    simp only [Bool.false_eq_true, if_false]
+    refine ⟨hG1, sp.finOk, by rw [sp.glyphs]; exact fun g h => h, by rw [sp.glyphs]; exact Nat.le_refl _, Or.inl ⟨by rw [sp.todos]; exact Nat.le_refl _, ?_⟩⟩
+    unfold work
+    rw [sp.glyphs]
+    have : remSum c1 L ≤ remSum c L := by
+      unfold remSum
+      apply sum_range_le
+      intro i
+      by_cases hi : i = id
+      · subst hi; exact sp.skip rfl
+      · rw [sp.other i hi]; exact Nat.le_refl _
+    omega
+  | true =>
+    simp only [if_true]
+    cases lk with
+    | error e => simp [liftPR, LookupPost]
+    | ok subs =>
+      simp only [liftPR]
+      have hG1' : Good { c1 with cur := current } := hG1
+      have hs := subsLoop_safe subs { c1 with cur := current } hG1'
+      cases hr : subsLoop { c1 with cur := current } subs with
+      | trap => rw [hr] at hs; exact hs
+      | err e => simp [CR.bind, LookupPost]
+      | ok c2 =>
+        rw [hr] at hs
+        have he : Eff { c1 with cur := current } c2 (subsCost subs) := hs
+        simp only [CR.bind, LookupPost]
+        have hfin : c2.finished = c1.finished := he.fin
+        have hglen : c.glyphs.length ≤ c2.glyphs.length := by
+          have := he.mono; simp only [] at this; rw [sp.glyphs] at this; exact this
+        refine ⟨⟨he.inc, he.tok⟩, ?_, ?_, hglen, Or.inr ⟨?_, ?_⟩⟩
+        · intro e hm cov hc
+          simp only [] at hm
+          rw [hfin] at hm
+          exact sp.finOk e hm cov hc
+        · intro g hg
+          have := he.sub g (by simp only []; rw [sp.glyphs]; exact hg)
+          exact this
+        · have := he.tlen
+          simp only [] at this
+          rw [sp.todos] at this
+          simp only [lookupCost] at hK
+          omega
+        · -- the measure drops
+          have hrem3 : ∀ i, rem { c2 with cur := none } i = remOf (finishedGet c1.finished i) c2.glyphs.length := by
+            intro i; simp only [rem, hfin]
+          by_cases hsame : c2.glyphs.length = c.glyphs.length
+          · unfold work
+            simp only [hsame]
+            have : remSum { c2 with cur := none } L + 1 ≤ remSum c L := by
+              unfold remSum
+              apply sum_range_dec (rem c) (rem { c2 with cur := none }) id 1
+              · intro i hi
+                rw [hrem3, hsame, ← sp.other i hi]
+                simp only [rem, sp.glyphs]
+              · rw [hrem3, hsame]
+                have := sp.exec rfl
+                simp only [rem, sp.glyphs] at this
+                exact this
+              · exact hid
+            omega
+          · unfold work
+            simp only []
+            have hlt : c.glyphs.length + 1 ≤ c2.glyphs.length := by omega
+            have hle : c2.glyphs.length ≤ 65536 := he.inc.length_le
+            have hS : remSum { c2 with cur := none } L + 1 ≤ L * 65537 + 1 := by
+              have := remSum_le { c2 with cur := none } L; omega
+            exact work_dec_arith 65536 _ _ (L * 65537 + 1) (remSum c L) _ hlt hle hS
+
+def phi (c : Cx) (L K : Nat) : Nat := work c L * (K + 1) + c.todos.length
+
+/-- **the todo loop terminates**: `phi + 1` units of fuel suffice, and it never panics -/
+theorem todoLoop_terminates (lookups : List (PR Lookup)) :
+    ∀ (fuel : Nat) (c : Cx), Good c → FinOk c → phi c lookups.length (maxCost lookups) < fuel →
+      ∃ r, todoLoop lookups fuel c = some r ∧ r ≠ .trap ∧
+        ∀ c', r = .ok c' → Good c' ∧ FinOk c' ∧ (∀ g ∈ c.glyphs, g ∈ c'.glyphs) ∧
+          c.glyphs.length ≤ c'.glyphs.length ∧ c'.todos = [] := by
+  intro fuel
+  induction fuel with
+  | zero => intro c _ _ h; omega
+  | succ fuel ih =>
+    intro c hG hF hphi
+    unfold todoLoop
+    cases ht : c.todos with
+    | nil =>
+      exact ⟨.ok c, rfl, by simp, fun c' h => by
+        injection h with h; subst h
+        exact ⟨hG, hF, fun g h => h, Nat.le_refl _, ht⟩⟩
+    | cons t rest =>
+      obtain ⟨id, active⟩ := t
+      simp only []
+      cases hl : arrGet lookups id with
+      | error e => exact ⟨.err e, rfl, by simp, fun c' h => by cases h⟩
+      | ok lk =>
+        simp only []
+        have ⟨hid, hmem⟩ := arrGet_ok hl
+        have hK := cost_le_max lookups lk (List.mem_of_getElem? hmem)
+        have hG0 : Good { c with todos := rest } :=
+          ⟨hG.1, fun t' ht' => hG.2 t' (by rw [ht]; simp [ht'])⟩
+        have hact : ∀ s, active = some s → Inc16 s := hG.2 (id, active) (by rw [ht]; simp)
+        have st := closureLookup_step lookups.length (maxCost lookups) { c with todos := rest } lk id active hG0 hF hact hid hK
+        cases hr : closureLookup { c with todos := rest } lk id active with
+        | trap => rw [hr] at st; exact absurd st (by simp [LookupPost])
+        | err e => exact ⟨.err e, rfl, by simp, fun c' h => by cases h⟩
+        | ok c1 =>
+          rw [hr] at st
+          simp only [LookupPost] at st
+          obtain ⟨hG1, hF1, hsub1, hmono1, hmeas⟩ := st
+          have hphi1 : phi c1 lookups.length (maxCost lookups) < fuel := by
+            have hw : work { c with todos := rest } lookups.length = work c lookups.length := rfl
+            unfold phi at hphi ⊢
+            rw [ht] at hphi
+            simp only [List.length_cons] at hphi
+            rcases hmeas with ⟨h1, h2⟩ | ⟨h1, h2⟩
+            · rw [hw] at h2
+              have h3 := Nat.mul_le_mul_right (maxCost lookups + 1) h2
+              have h1' : c1.todos.length ≤ rest.length := h1
+              generalize work c1 lookups.length * (maxCost lookups + 1) = p at h3 ⊢
+              generalize work c lookups.length * (maxCost lookups + 1) = q at h3 hphi
+              omega
+            · rw [hw] at h2
+              have h1 : c1.todos.length ≤ rest.length + maxCost lookups := h1
+              have := phi_dec_arith (work c lookups.length) (work c1 lookups.length) (maxCost lookups) rest.length c1.todos.length h2 h1
+              omega
+          obtain ⟨r, hr2, hnt, hpost⟩ := ih c1 hG1 hF1 hphi1
+          refine ⟨r, hr2, hnt, fun c' hc' => ?_⟩
+          obtain ⟨a, b, c3, d, e⟩ := hpost c' hc'
+          exact ⟨a, b, fun g hg => c3 g (hsub1 g hg), Nat.le_trans hmono1 d, e⟩
+
+/-- the first loop of `closure_glyphs_once`: every reachable lookup with all glyphs active -/
+theorem onceLookups_safe (lookups : List (PR Lookup)) :
+    ∀ (ids : List Nat) (c : Cx), Good c → FinOk c →
+      match onceLookups lookups c ids with
+      | .trap => False
+      | .err _ => True
+      | .ok c' => Good c' ∧ FinOk c' ∧ (∀ g ∈ c.glyphs, g ∈ c'.glyphs) ∧ c.glyphs.length ≤ c'.glyphs.length ∧
+          c'.todos.length ≤ c.todos.length + ids.length * maxCost lookups := by
+  intro ids
+  induction ids with
+  | nil => intro c hG hF; exact ⟨hG, hF, fun g h => h, Nat.le_refl _, by simp⟩
+  | cons id rest ih =>
+    intro c hG hF
+    unfold onceLookups
+    cases hl : arrGet lookups id with
+    | error e => simp [liftPR]
+    | ok lk =>
+      simp only [liftPR]
+      have ⟨hid, hmem⟩ := arrGet_ok hl
+      have hK := cost_le_max lookups lk (List.mem_of_getElem? hmem)
+      have st := closureLookup_step lookups.length (maxCost lookups) c lk id none hG hF (by intro s h; cases h) hid hK
+      cases hr : closureLookup c lk id none with
+      | trap => rw [hr] at st; exact st
+      | err e => simp [CR.bind]
+      | ok c1 =>
+        rw [hr] at st
+        simp only [LookupPost] at st
+        obtain ⟨hG1, hF1, hsub1, hmono1, hmeas⟩ := st
+        simp only [CR.bind]
+        have := ih c1 hG1 hF1
+        cases hr2 : onceLookups lookups c1 rest with
+        | trap => rw [hr2] at this; exact this
+        | err e => trivial
+        | ok c2 =>
+          rw [hr2] at this
+          obtain ⟨a, b, c3, d, e⟩ := this
+          refine ⟨a, b, fun g hg => c3 g (hsub1 g hg), Nat.le_trans hmono1 d, ?_⟩
+          simp only [List.length_cons, Nat.succ_mul]
+          rcases hmeas with ⟨h1, _⟩ | ⟨h1, _⟩ <;> omega
+
+/-- an upper bound of `work` over all contexts -/
+theorem work_le (c : Cx) (L : Nat) : work c L ≤ 65536 * (L * 65537 + 1) + L * 65537 := by
+  unfold work
+  have h1 := remSum_le c L
+  have h2 : (65536 - c.glyphs.length) * (L * 65537 + 1) ≤ 65536 * (L * 65537 + 1) :=
+    Nat.mul_le_mul_right _ (by omega)
+  generalize (65536 - c.glyphs.length) * (L * 65537 + 1) = a at h2 ⊢
+  generalize 65536 * (L * 65537 + 1) = b at h2 ⊢
+  omega
+
+def PassPost (c : Cx) : CR Cx → Prop
+  | .trap => False
+  | .err _ => True
+  | .ok c' => Good c' ∧ FinOk c' ∧ (∀ g ∈ c.glyphs, g ∈ c'.glyphs) ∧ c.glyphs.length ≤ c'.glyphs.length ∧ c'.todos = []
+
+/-- **one pass (`closure_glyphs_once`) terminates** within `onceFuel` todo-loop trips and never panics -/
+theorem closureOnce_terminates (g : GsubT) (reachable : List Nat) (c : Cx) (hG : Good c) (hF : FinOk c)
+    (ht : c.todos = []) (fuel : Nat)
+    (hfuel : ∀ ls, g.lookups = .ok ls → onceFuel ls.length (maxCost ls) reachable.length ≤ fuel) :
+    ∃ r, closureOnce g reachable fuel c = some r ∧ PassPost c r := by
+  unfold closureOnce
+  cases hl : g.lookups with
+  | error e => exact ⟨.err e, rfl, trivial⟩
+  | ok ls =>
+    simp only []
+    have h1 := onceLookups_safe ls reachable c hG hF
+    cases hr : onceLookups ls c reachable with
+    | trap => rw [hr] at h1; exact absurd h1 (by simp)
+    | err e => exact ⟨.err e, rfl, trivial⟩
+    | ok c1 =>
+      rw [hr] at h1
+      simp only [] at h1
+      obtain ⟨hG1, hF1, hsub1, hmono1, htl⟩ := h1
+      have hphi : phi c1 ls.length (maxCost ls) < fuel := by
+        have := hfuel ls hl
+        unfold onceFuel at this
+        unfold phi
+        have hw := work_le c1 ls.length
+        have := Nat.mul_le_mul_right (maxCost ls + 1) hw
+        rw [ht] at htl
+        simp only [List.length_nil, Nat.zero_add] at htl
+        omega
+      obtain ⟨r, hr2, hnt, hpost⟩ := todoLoop_terminates ls fuel c1 hG1 hF1 hphi
+      refine ⟨r, hr2, ?_⟩
+      cases r with
+      | trap => exact absurd rfl hnt
+      | err e => trivial
+      | ok c2 =>
+        obtain ⟨a, b, c3, d, e⟩ := hpost c2 rfl
+        exact ⟨a, b, fun g hg => c3 g (hsub1 g hg), Nat.le_trans hmono1 d, e⟩
+
+/-- **the fixpoint loop of `closure_glyphs` makes at most `65536 − |glyphs| + 2` passes**: every pass but
+the last one finds a new glyph, and there are only 65536 glyph ids -/
+theorem closureLoop_terminates (g : GsubT) (reachable : List Nat) (fuelI : Nat)
+    (hfuel : ∀ ls, g.lookups = .ok ls → onceFuel ls.length (maxCost ls) reachable.length ≤ fuelI) :
+    ∀ (fuelO : Nat) (prev : Nat × Nat) (c : Cx), Good c → FinOk c → c.todos = [] →
+      65536 - c.glyphs.length + 2 ≤ fuelO →
+      ∃ r, closureLoop g reachable fuelI fuelO prev c = some r ∧ PassPost c r := by
+  intro fuelO
+  induction fuelO with
+  | zero => intro prev c _ _ _ h; omega
+  | succ fuelO ih =>
+    intro prev c hG hF ht hfo
+    unfold closureLoop
+    simp only []
+    by_cases hp : prev = (c.glyphs.length, reachable.length)
+    · simp only [hp, if_true]
+      exact ⟨.ok c, rfl, hG, hF, fun g h => h, Nat.le_refl _, ht⟩
+    · simp only [hp, if_false]
+      obtain ⟨r, hr, hpost⟩ := closureOnce_terminates g reachable c hG hF ht fuelI hfuel
+      rw [hr]
+      cases r with
+      | trap => exact absurd hpost (by simp [PassPost])
+      | err e => exact ⟨.err e, rfl, trivial⟩
+      | ok c1 =>
+        simp only []
+        obtain ⟨hG1, hF1, hsub1, hmono1, ht1⟩ := hpost
+        by_cases hsame : c1.glyphs.length = c.glyphs.length
+        · -- no new glyph: the next test ends the loop
+          cases fuelO with
+          | zero => omega
+          | succ k =>
+            unfold closureLoop
+            simp only [hsame, if_true]
+            exact ⟨.ok c1, rfl, hG1, hF1, hsub1, hmono1, ht1⟩
+        · have hle : c1.glyphs.length ≤ 65536 := hG1.1.length_le
+          obtain ⟨r2, hr2, hpost2⟩ := ih (c.glyphs.length, reachable.length) c1 hG1 hF1 ht1 (by omega)
+          refine ⟨r2, hr2, ?_⟩
+          cases r2 with
+          | trap => exact hpost2
+          | err e => trivial
+          | ok c2 =>
+            obtain ⟨a, b, c3, d, e⟩ := hpost2
+            exact ⟨a, b, fun g hg => c3 g (hsub1 g hg), Nat.le_trans hmono1 d, e⟩
 
 
 end FontVerif.HandLayout
